@@ -1334,7 +1334,9 @@ func (f *fx) forStmt(n *ast.ForStmt, rest []ast.Stmt, e env, k cont, next cont, 
 			args = append(args, vname(nm))
 		}
 		recur := "(" + name + " fuel' " + strings.Join(args, " ") + ")"
-		exit := func(e2 env) string { return f.stmts(rest, env{vars: dropDeeper(e2, e.depth), depth: e.depth}, k, false) }
+		exit := func(e2 env) string {
+			return f.stmts(rest, env{vars: dropDeeper(e2, e.depth), depth: e.depth}, k, false)
+		}
 		var head, cvar string
 		if c, ok := isCall(n.Cond); ok {
 			p, temps, rs, _ := f.callStmt(c, e)
